@@ -69,7 +69,7 @@ NRootsOf(layout) == IF layout = 3 THEN 2 ELSE 1
 IsHopName(f) == f # "t"
 Has(layout, r, n) ==          \* root r holds a file at normalised path n
   LET d == DirIdx(Front(n))  f == n[Len(n)] IN
-  d # 0 /\ (IF f = "t" THEN r \in TRoots(layout, d) ELSE (r = 1 /\ f \in {"u", "h"}))
+  d # 0 /\ (IF f = "t" THEN r \in TRoots(layout, d) ELSE (r = 1 /\ f \in {"u", "h", "bb"}))
 (* URI spellings: `pre` is what is written before the file name *)
 Sp(a, pre) == [abs |-> a, pre |-> pre, empty |-> FALSE]
 Spellings == <<
@@ -91,7 +91,12 @@ Uri(s, fname) == [abs |-> Spellings[s].abs, segs |-> Spellings[s].pre \o <<fname
 (*                 local.get_namespace with s2 (inside a def reached through h, self/local ARE h).                   *)
 (* In every case s2, if relative, resolves against the URI of H (the template it is written in, resp. the            *)
 (* template of the namespace it is resolved through) -- i.e. the URI hop 1 looked up.                                *)
-Req5(w, s1, k1, s2, k2) == [w |-> w, s1 |-> s1, k1 |-> k1, s2 |-> s2, k2 |-> k2]
+(* base / entry: the writer W may inherit a base template living in directory `base` (0: W does not inherit), and the     *)
+(* request may be W.render() ("render") or W.get_def("d").render() ("def") with the tag / call of hop 1 written inside    *)
+(* def d of W.  Either way the URI is written in W: `local` inside d is W's own namespace -- _render_context links W's     *)
+(* chain and then runs the def in W's own context, not in the base-most ancestor's.                                        *)
+Req7(w, s1, k1, s2, k2, b, e) == [w |-> w, s1 |-> s1, k1 |-> k1, s2 |-> s2, k2 |-> k2, base |-> b, entry |-> e]
+Req5(w, s1, k1, s2, k2) == Req7(w, s1, k1, s2, k2, 0, "render")
 Req(w, s1, k1, s2) == Req5(w, s1, k1, s2, IF s2 = 0 THEN "none" ELSE "include")
 ApiKinds == {"out.gettmpl", "out.incfile", "out.getns", "in.gettmpl", "in.incfile", "in.getns"}
 HopFile(r) == IF r.s2 = 0 THEN "t" ELSE IF r.k2 = "include" THEN "u" ELSE "h"
@@ -116,6 +121,12 @@ UriConfigs ==
                   s \in (IF Tier = "quick" THEN ApiSp ELSE {z \in S : ~Spellings[z].empty}), k \in Kinds} : w \in W} :
             /\ c.reqs[1].k1 # "inherit"       \* (x.body() / next.body() of a writer that itself inherits would not show its target)
             /\ (Tier = "quick" /\ c.layout = 2) => c.reqs[1].k1 \in {"getns", "nsfile", "include"}}
+  (* ENTRY POINTS: the lookup is written inside def d of writer W, which inherits a base in another directory (or not);    *)
+  (* requested as a whole render of W or as W.get_def("d")                                                                 *)
+  \cup {[fam |-> "uri", reach |-> "none", layout |-> l, reqs |-> <<Req7(w, s, k, 0, "none", b, e)>>] :
+          l \in (IF Tier = "quick" THEN {1} ELSE {1, 2}), w \in W, b \in {0, 1, 5}, e \in {"render", "def"},
+          s \in (IF Tier = "quick" THEN ApiSp ELSE {z \in S : ~Spellings[z].empty}),
+          k \in {"include", "getns", "gettmpl", "incfile"}}
   (* two hops through the Namespace API: W -> namespace of H (spelling s1) -> t (spelling s2 resolved through H) *)
   \cup {[fam |-> "uri", reach |-> "none", layout |-> l, reqs |-> <<Req5(w, s, k, s2, k2)>>] :
           l \in {1, 2}, w \in W, k \in {"nsfile", "getns"}, k2 \in ApiKinds,
@@ -176,7 +187,7 @@ NsHit(key, u) == key # <<>> /\ \E m \in nsmemo : m.ns = key /\ m.uri = u
 Resolve ==
   /\ phase = "run" /\ cfg.fam = "uri" /\ pc <= Len(cfg.reqs)
   /\ LET r == cfg.reqs[pc]
-         rel == IF hop = 1 THEN EntryUri(r) ELSE cur
+         rel == IF hop = 1 THEN EntryUri(r) ELSE cur          \* hop 1: the URI of `local` = of the template the tag / call is written in
          s == IF hop = 1 THEN r.s1 ELSE r.s2
          fname == IF hop = 1 THEN HopFile(r) ELSE "t"
          key == NsKey(r, hop)
@@ -189,12 +200,15 @@ Resolve ==
         THEN /\ failed /\ memo' = memo /\ coll' = coll                                \* "" names nothing
         ELSE LET u == Uri(s, fname)
                  hit == NsHit(key, u)
-                 looked == IF hit THEN (CHOOSE m \in nsmemo : m.ns = key /\ m.uri = u).val ELSE AdjustUri(memo, u, rel)
+                 (* a writer that inherits has had its (absolute) <%inherit> target looked up while the chain was linked *)
+                 memoB == IF hop = 1 /\ r.base # 0
+                          THEN MemoAfter(memo, [abs |-> TRUE, segs |-> Dirs[r.base] \o <<"bb">>], rel) ELSE memo
+                 looked == IF hit THEN (CHOOSE m \in nsmemo : m.ns = key /\ m.uri = u).val ELSE AdjustUri(memoB, u, rel)
                  root == IF \E c \in coll : c.uri = looked THEN (CHOOSE c \in coll : c.uri = looked).root
                          ELSE Locate(looked, NRootsOf(cfg.layout), HasL)
                  nm == IF key = <<>> \/ hit \/ root = 0 THEN nsmemo
                        ELSE nsmemo \cup {[ns |-> key, uri |-> u, rel |-> rel, val |-> looked]}
-             IN /\ memo' = (IF hit THEN memo ELSE MemoAfter(memo, u, rel))
+             IN /\ memo' = (IF hit THEN memoB ELSE MemoAfter(memoB, u, rel))
                 /\ coll' = (IF root = 0 THEN coll ELSE coll \cup {[uri |-> looked, root |-> root]})
                 /\ IF root = 0 THEN failed
                    ELSE IF fname # "t" THEN /\ out' = out /\ hop' = 2 /\ cur' = looked /\ pc' = pc /\ nsmemo' = nm
